@@ -877,3 +877,91 @@ pub fn fixtures_hold_notdef_pairs(base: &BaseTables) -> Result<(), String> {
     }
     Ok(())
 }
+
+/// Entry code point sets that span several 512-value pages of the bit set and are encoded with FILLED
+/// (all-zero) interior nodes at higher code points than leaf-encoded ones, so that the decoder creates
+/// pages out of ascending order. Two or three such entries compete as invalidating candidates with
+/// intersection sizes that differ by one; the reference counts with plain set arithmetic.
+pub fn spaces_pages(ctx: &Ctx, base: &BaseTables) {
+    let range = |a: u32, b: u32| (a..=b).collect::<Vec<u32>>();
+    let cat = |parts: &[Vec<u32>]| {
+        let mut v: Vec<u32> = parts.concat();
+        v.sort();
+        v.dedup();
+        v
+    };
+    let sets: Vec<Vec<u32>> = vec![
+        vec![A],
+        vec![A, B],
+        vec![0x4C05],
+        vec![A, 0x4C05],
+        cat(&[vec![A], range(0x4C00, 0x4DFF)]),                    // leaf in page 0, filled page 38
+        cat(&[vec![A], range(0x200, 0x3FF)]),                      // leaf in page 0, filled page 1
+        cat(&[vec![A, 0x2005], range(0x4C00, 0x4DFF)]),            // three pages, leaves in 0 and 16
+        cat(&[vec![B, 0x4C05], range(0x8000, 0x81FF)]),            // three pages, filled one last
+        cat(&[range(0x200, 0x3FF), range(0x4C00, 0x4DFF), vec![0x8001]]), // two filled pages, leaf last
+        cat(&[vec![A], range(0x4C00, 0x4CFF)]),                    // half a page filled (one 256 node)
+    ];
+    let cps_defs: Vec<DCps> = vec![
+        DCps::Set(vec![A]),
+        DCps::Set(vec![0x4C05]),
+        DCps::Set(vec![A, 0x4C05]),
+        DCps::Set(vec![A, B, 0x4C05]),
+        DCps::Set(vec![0x205]),
+        DCps::Set(vec![A, 0x205]),
+        DCps::Set(vec![A, 0x2005, 0x4C05]),
+        DCps::Set(vec![0x4C05, 0x8001]),
+        DCps::Set(vec![B, 0x8001, 0x4DFF, 0x4C00]),
+        DCps::Set(vec![A, 0x3FF, 0x400, 0x4BFF, 0x4E00]),
+        DCps::AllExcept(vec![]),
+        DCps::AllExcept(vec![A]),
+        DCps::AllExcept(vec![0x4C05]),
+    ];
+    let defs: Vec<Def> = cps_defs
+        .into_iter()
+        .map(|c| Def { cps: c, feats: DFeat::Set(vec![]), ds: DDs::Ranges(vec![]) })
+        .collect();
+    let sds: Vec<_> = defs.iter().map(to_subset_definition).collect();
+    let pairs = subset_pairs(&defs);
+    ctx.run.bound("pages_entry_code_point_sets", json!(sets.iter().map(|s| s.len()).collect::<Vec<_>>()));
+    ctx.run.bound("pages_definitions", json!(defs.len()));
+    let n = sets.len();
+    let (sets, defs, sds, pairs) = (&sets, &defs, &sds, &pairs);
+    let counter = std::sync::atomic::AtomicU64::new(0);
+    par_for(n * n * (n + 1), |code| {
+        let mut l = Local::default();
+        let (a, b, c) = (code % n, (code / n) % n, code / (n * n));
+        let mk = |k: usize, bias_kind: u8| {
+            let mut e = E2::plain();
+            let members = sets[k].clone();
+            let bias = if bias_kind == 0 { 0 } else { members[0].min(0x40) };
+            e.cps = Cps::Set { bias_kind, bias, members };
+            e
+        };
+        // c == n: two-entry table
+        let mut entries = vec![mk(a, 0), mk(b, 1)];
+        if c < n {
+            entries.push(mk(c, 0));
+        }
+        let mut k = 0u64;
+        for default_format in [3u8, 2, 1] {
+            let mut t = t2_of(entries.clone());
+            t.default_format = default_format;
+            let tm = TableModel::F2(t);
+            if default_format == 3 {
+                let fc = FontCase { kind: "f2-pages", ift: Some(&tm), iftx: None };
+                check_font(ctx, base, &fc, defs, sds, pairs, &mut l);
+            } else {
+                for (d, sd) in defs.iter().zip(sds.iter()) {
+                    let gc = groups::GroupCase { ift: Some(tm.clone()), iftx: None, def: d.clone(), cmap12: false };
+                    groups::run_one(ctx, base, &gc, sd, &mut l);
+                    k += 1;
+                }
+            }
+        }
+        counter.fetch_add(k, std::sync::atomic::Ordering::Relaxed);
+        ctx.merge(l);
+    });
+    ctx.run.count("pages_tables", (n * n * (n + 1)) as u64);
+    ctx.run.count("pages_group_selections", counter.load(std::sync::atomic::Ordering::Relaxed));
+}
